@@ -16,6 +16,7 @@
  * the same address right after every eav_is_email), IDN-context ledger (adapter builds, see shim/idn).
  */
 #include "common.h"
+#include <errno.h>
 #include <stdbool.h>
 #include <eav.h>
 #include <eav/auto_tld.h>
@@ -70,7 +71,9 @@ static int led_available = 1;
 static int led_available = 0;
 #endif
 
-#define LIB(call) do { led_in_lib = 1; call; led_in_lib = 0; } while (0)
+/* errno holds a stale non-zero value when the library is entered (a caller's earlier failure): a library that tests errno without
+ * clearing it first, or reports it, misbehaves */
+#define LIB(call) do { errno = (g_case & 1) ? ERANGE : ENOMEM; led_in_lib = 1; call; led_in_lib = 0; } while (0)
 
 /* ---------------------------------------------------------------- fault injection (C19) */
 #ifdef VERIF_WRAP_IDN2
@@ -91,6 +94,7 @@ int __wrap_idn2_to_ascii_8z(const char *input, char **output, int flags)
             fault_fired = 1;
             fault_fired_code = fault_code;
             wrap_injected++;
+            errno = (wrap_injected & 1) ? ENOMEM : EILSEQ;      /* a failing conversion usually leaves an errno behind */
             if (fault_buf && output) {
                 char *p = malloc(32);
                 strcpy(p, "leftover.buffer");
